@@ -73,6 +73,18 @@ Definition run_map (tag : ustr) (args : list sexp) : option sexp :=
               end)
     | _ => None
     end
+  else if tag_is tag "sepmatrix" then
+    match args with
+    | [nq; d] => do nq' <- de_bool nq; do d' <- de_doc d;
+        Some (match normalise d' with
+              | Ok rs => match sep_matrix nq' rs with
+                         | Some m => L [A (u "ok"); L (map sx_rule rs); L (map (fun x => L [A (fst (fst x)); A (snd (fst x)); sx_bool (snd x)]) m)]
+                         | None => L [A (u "error"); A (u "Other")]
+                         end
+              | Err e => L [A (u "error"); A (err_name e)]
+              end)
+    | _ => None
+    end
   else None.
 
 Fixpoint first_some {T} (l : list (option T)) : option T :=
